@@ -93,3 +93,14 @@ def forall_kk(f):
     a = z3.Const(fresh_name('ka'), Key)
     b = z3.Const(fresh_name('kb'), Key)
     return z3.ForAll([a, b], f(a, b))
+
+
+# ---- abstract real vectors (numpy 1-D float arrays used as mathematical vectors: assumed external algebra)
+Vec = z3.DeclareSort('Vec')
+vzero = z3.Function('vzero', I, Vec)
+vadd = z3.Function('vadd', Vec, Vec, Vec)
+vscale = z3.Function('vscale', R, Vec, Vec)
+vdot = z3.Function('vdot', Vec, Vec, R)
+vdim = z3.Function('vdim', Vec, I)
+VZ = z3.Const('VZ', Vec)      # python scalar 0 used as the start value of a vector accumulation
+dcard = z3.Function('dcard', KB, I)     # number of keys of a dict domain (only its sign and emptiness are axiomatised)
